@@ -636,6 +636,8 @@ package bpmn
 //@ func (*flow).Start$1
 //@   prop C01 C04 C06 C07 C08 C09
 //@   requires f != nil && f.tracer != nil && f.flowWaitGroup != nil
+//@   recvinv flowAction: forall b int :: off(msg.unconditionalFlows) <= b && b < off(msg.unconditionalFlows) + len(msg.unconditionalFlows) ==>
+//@             0 <= at(msg.unconditionalFlows, b) && at(msg.unconditionalFlows, b) < len(msg.sequenceFlows)
 //@   ensures [announces-itself-first] isTrace(ev(old(evlen))) && is(evval(ev(old(evlen))), NewFlowTrace)
 //@   ensures [counted-out-exactly-once] count(WgDone, f.flowWaitGroup) == old(count(WgDone, f.flowWaitGroup)) + 1 &&
 //@             isWgDone(ev(evlen - 2)) && evch(ev(evlen - 2)) == f.flowWaitGroup
@@ -686,6 +688,8 @@ package bpmn
 //@ func (*exclusiveGateway).run
 //@   prop C04 C07
 //@   requires gw.wiring != nil && gw.probing != nil
+//@   recvinv gatewayProbingReport: forall a int :: off(msg.result) <= a && a < off(msg.result) + len(msg.result) ==>
+//@             0 <= at(msg.result, a) && at(msg.result, a) < len(gw.nonDefaultSequenceFlows)
 //@   loop 1 for
 //@     invariant gw.wiring != nil && gw.probing != nil && gw.wiring == old(gw.wiring) && gw.mch == old(gw.mch) && gw.probing == old(gw.probing) &&
 //@               gw.element == old(gw.element) && gw.defaultSequenceFlow == old(gw.defaultSequenceFlow) && gw.nonDefaultSequenceFlows == old(gw.nonDefaultSequenceFlows)
@@ -814,6 +818,8 @@ package bpmn
 //@ func (*inclusiveGateway).run
 //@   prop C05 C07
 //@   requires gw.wiring != nil && gw.flowTracker != nil
+//@   recvinv gatewayProbingReport: forall a int :: off(msg.result) <= a && a < off(msg.result) + len(msg.result) ==>
+//@             0 <= at(msg.result, a) && at(msg.result, a) < len(gw.nonDefaultSequenceFlows)
 //@   loop 1 for
 //@     invariant gw.wiring != nil && gw.flowTracker != nil && gw.wiring == old(gw.wiring) && gw.mch == old(gw.mch) && gw.element == old(gw.element) &&
 //@               gw.defaultSequenceFlow == old(gw.defaultSequenceFlow) && gw.nonDefaultSequenceFlows == old(gw.nonDefaultSequenceFlows) && gw.flowTracker == old(gw.flowTracker)
